@@ -201,6 +201,41 @@ def resized_world_case(case):
     return q
 
 
+def two_callers_case(case):
+    """Two positional queries on the same world by two threads, the second cutting into the first at every line of
+    library code (E5): both get their own answer."""
+    from mc.engine import preempt
+    kind, dims = WORLDS[case['world']]
+    d3 = list(dims) + [0] * (3 - len(dims))
+    nargs = 2 if kind == 'grid' else 3
+    spots = [(0, 0, 0), (1, 1, 0), (3, 2, 0), (2, 1, 0), (1, 1, 0)]
+    queries = [((1, 1, 0), (1, 0, 0, 0)), ((3, 2, 0), (0, 0, 0, 0)), ((2, 0, 0), (0.5, 2, 0, 0)), ((0, 2, 0), (6, 0, 0, 0))]
+    qa, qb = queries[case['a']], queries[case['b']]
+    state = {}
+
+    def make():
+        reset_library()
+        model = new_model(seed=1)
+        env = model.environment = mk(model, kind, dims, False)
+        agents = []
+        for i, p in enumerate(spots):
+            a = Core.Agent(f't{i}', model)
+            env.add_agent(a, *p[:nargs])
+            agents.append((a, tuple(a[PC].xyz())))
+        state['agents'] = agents
+        return (lambda: env.get_agents_at(qa[0][0], qa[0][1], qa[0][2], *qa[1])), \
+               (lambda: env.get_agents_at(qb[0][0], qb[0][1], qb[0][2], *qb[1]))
+
+    def judge(k, box_a, box_b):
+        for who, box, q in (('first', box_a, qa), ('second', box_b, qb)):
+            exp = [a for a, p in state['agents'] if box_match(p, q[0], q[1], d3, False, False)]
+            if box.error is not None or box.value != exp:
+                raise Violation(f'two callers on one {case["world"]} world: the {who} query {q} gave a wrong answer when the '
+                                f'second cut into the first at line event {k}', expected=[a.id for a in exp],
+                                observed=repr(box.error) if box.error else [a.id for a in box.value])
+    return preempt.check_pair(make, judge, case.get('k'))
+
+
 def nan_case(case):
     """Not-a-number coordinates: an agent whose position is NaN on some axis is inside no box, and a query point with
     a NaN coordinate has nobody inside its box (every comparison with NaN is false)."""
@@ -528,15 +563,17 @@ def run(ctx):
     extra += [{'leg': 'crowd', 'world': 'space4x3x0', 'n': 60, 'huge': True}]
     extra += [{'leg': 'replaced_world', 'new': nw, 'via': via} for nw in ('space', 'grid') for via in ('set', 'assign')]
     extra += [{'leg': 'resized_world', 'wrap': False}, {'leg': 'resized_world', 'wrap': True}]
+    extra += [{'leg': 'two_callers', 'world': wn, 'a': a, 'b': b} for wn in ('space4x3x0', 'grid4x3')
+              for a, b in ((0, 1), (1, 0), (2, 3), (3, 2), (0, 0))]
     extra += [{'leg': 'nan', 'world': wn, 'wrap': wr} for wn in ('space4x3x0', 'grid4x3', 'disc4x3x2') for wr in (False, True)]
     for case in extra:
         if ctx.violations:
             break
         ctx.traces += 1
         try:
-            ctx.transitions += hbfs._guard({'crowd': crowd_case, 'nan': nan_case, 'resized_world': resized_world_case}.get(case['leg'], replaced_world_case), case)
+            ctx.transitions += hbfs._guard({'crowd': crowd_case, 'nan': nan_case, 'resized_world': resized_world_case, 'two_callers': two_callers_case}.get(case['leg'], replaced_world_case), case)
         except Violation as v:
-            ctx.report(case, v)
+            ctx.report(dict(case, k=v.case_k) if hasattr(v, 'case_k') else case, v)
     ctx.leg('crowd_and_replaced_world', cases=len(extra))
     ctx.sample(cases[0])
     if ctx.violations or ctx.small:
@@ -563,6 +600,8 @@ def replay(case):
         hbfs._guard(nan_case, case)
     elif case['leg'] == 'resized_world':
         hbfs._guard(resized_world_case, case)
+    elif case['leg'] == 'two_callers':
+        hbfs._guard(two_callers_case, case)
     elif case['leg'] == 'single':
         evals, answers, known = hbfs._guard(single_world, case)
         if known is not None:
